@@ -146,6 +146,52 @@ func genHostile(seed int64, idx int, seeds []decInput, byVer map[byte][]decInput
 	return hs
 }
 
+// systematicHostile: the packets a client can place behind a valid CONNECT, cut short at every offset - as they are
+// and with the continuation bit set on the last byte that is left (a variable byte integer that runs into the end of
+// the packet) - and, in the thorough tier, also with every byte tampered; each becomes a stream of its own because the
+// first malformed packet ends a connection.
+func systematicHostile(seeds []decInput, tier string) []decInput {
+	var out []decInput
+	for _, s := range seeds {
+		if s.Hdr>>4 == rc.CONNECT || s.Ver == 3 || len(s.Body) > 400 {
+			continue
+		}
+		if s.Src != "seed" && tier != "thorough" {
+			continue
+		}
+		for i := 1; i <= len(s.Body); i++ {
+			if i < len(s.Body) {
+				out = append(out, decInput{Ver: s.Ver, Hdr: s.Hdr, Body: append([]byte{}, s.Body[:i]...), Src: "trunc"})
+			}
+			if s.Body[i-1]&0x80 == 0 {
+				b := append([]byte{}, s.Body[:i]...)
+				b[i-1] |= 0x80
+				out = append(out, decInput{Ver: s.Ver, Hdr: s.Hdr, Body: b, Src: "trunc-cont"})
+			}
+		}
+		if tier == "thorough" && s.Src == "seed" {
+			systematicMutations(s, func(d decInput) {
+				if d.Src == "tamper" {
+					out = append(out, d)
+				}
+			})
+		}
+	}
+	return out
+}
+
+func sysStream(idx int, in decInput, r *vk.Rand) hostileStream {
+	hs := hostileStream{Index: idx, MPS: 4096, Kind: "valid-connect+" + in.Src}
+	p := &rc.Packet{Type: rc.CONNECT, ProtoLevel: in.Ver, ProtoName: "MQTT", ClientID: fmt.Sprintf("h%d", r.Intn(4)), ConnectFlags: 2}
+	stream := append(rc.Encode(p, rc.FormAuto), wire(in, nil)...)
+	var hexs []string
+	for _, ch := range splitChunks(r, stream) {
+		hexs = append(hexs, hex.EncodeToString(ch))
+	}
+	hs.Conns = [][]string{hexs}
+	return hs
+}
+
 type c28Msg struct {
 	Kind   string           `json:"kind"` // viol | done | progress
 	Rule   string           `json:"rule,omitempty"`
@@ -208,6 +254,7 @@ func childC28(args []string) {
 	start, _ := strconv.Atoi(args[2])
 	end, _ := strconv.Atoi(args[3])
 	logPath := args[4]
+	nRandom, _ := strconv.Atoi(args[5])
 	out := bufio.NewWriter(os.Stdout)
 	emit := func(m c28Msg) { b, _ := json.Marshal(m); out.Write(b); out.WriteByte('\n'); out.Flush() }
 	per := 4
@@ -218,6 +265,10 @@ func childC28(args []string) {
 	byVer := map[byte][]decInput{}
 	for _, s := range seeds {
 		byVer[s.Ver] = append(byVer[s.Ver], s)
+	}
+	var sys []decInput
+	if end > nRandom {
+		sys = systematicHostile(seeds, tier)
 	}
 	counts := map[string]int64{}
 	lf, _ := os.OpenFile(logPath, os.O_CREATE|os.O_WRONLY|os.O_TRUNC, 0o644)
@@ -241,7 +292,15 @@ func childC28(args []string) {
 		return true
 	}
 	for idx := start; idx < end; idx++ {
-		hs := genHostile(seed, idx, seeds, byVer)
+		var hs hostileStream
+		if idx < nRandom {
+			hs = genHostile(seed, idx, seeds, byVer)
+		} else if idx-nRandom < len(sys) {
+			hs = sysStream(idx, sys[idx-nRandom], vk.Sub(seed, 2802, uint64(idx)))
+			counts["systematic_streams"]++
+		} else {
+			break
+		}
 		if b == nil || hs.MPS != curMPS || idx%50 == 0 {
 			if !newBroker(hs.MPS) {
 				emit(c28Msg{Kind: "viol", Rule: "C28/reference-client-disturbed", Detail: "reference client could not connect/subscribe on a fresh broker", Index: idx})
@@ -348,7 +407,7 @@ func childC28(args []string) {
 }
 
 func checkC28(c *vk.Ctx) {
-	c.Rule = "child processes host a real broker (MaximumPacketSize 256-4096) with a well-behaved MQTT 5 reference client that publishes numbered QoS 1 messages to a topic it subscribes to and pings; per stream 1-4 hostile in-memory connections send {valid CONNECT v3/v4/v5 | mutated CONNECT | no CONNECT} followed by 1-12 items drawn from: mutated packets (bit flips, inserts, deletes, splices, wrong versions/headers), well-formed packets for other versions, raw random bytes, inconsistent remaining lengths, headers announcing more than the maximum packet size (body withheld or supplied); chunks are split at arbitrary byte boundaries and interleaved across connections. " +
+	c.Rule = "child processes host a real broker (MaximumPacketSize 256-4096) with a well-behaved MQTT 5 reference client that publishes numbered QoS 1 messages to a topic it subscribes to and pings; per stream 1-4 hostile in-memory connections send {valid CONNECT v3/v4/v5 | mutated CONNECT | no CONNECT} followed by 1-12 items drawn from: mutated packets (bit flips, inserts, deletes, splices, wrong versions/headers), well-formed packets for other versions, raw random bytes, inconsistent remaining lengths, headers announcing more than the maximum packet size (body withheld or supplied); in addition every well-formed v4/v5 non-CONNECT seed packet is sent behind a valid CONNECT cut short at every offset, as it is and with the continuation bit set on its last remaining byte (thorough: also the broker's catalogue packets, and every byte tampered to 0/0xff/+1/-1), one stream per mutation; chunks are split at arbitrary byte boundaries and interleaved across connections. " +
 		"Every stream is written to disk before it is sent. Oracles: the child must not die (panic/fatal -> the logged stream is the witness); after delivery the broker must become quiescent (every hostile handler returned or waiting for bytes: not spinning or wedged); the reference client's publish must be acknowledged once and echoed once in order and its PINGREQ answered; a fixed header announcing more than the maximum packet size must end the connection without the body. nontrivial = streams after which at least one hostile connection had been closed by the broker"
 	c.Assumptions = []string{"hostile connections never use the reference client's id (a takeover legitimately ends it)", "quiescence = handler blocked in Read with nothing buffered, or returned"}
 	bin := os.Getenv("VERIF_BIN")
@@ -359,7 +418,13 @@ func checkC28(c *vk.Ctx) {
 	if scratch == "" {
 		scratch = os.TempDir()
 	}
-	total := c.N(12000, 150000)
+	nRandom := c.N(12000, 150000)
+	per := 4
+	if c.Tier == "thorough" {
+		per = 8
+	}
+	nSys := len(systematicHostile(corpusSeeds(c.Seed, per), c.Tier))
+	total := nRandom + nSys
 	batch := 250
 	nb := (total + batch - 1) / batch
 	var mu sync.Mutex
@@ -371,7 +436,7 @@ func checkC28(c *vk.Ctx) {
 		}
 		logPath := filepath.Join(scratch, fmt.Sprintf("c28cur.%d", bi))
 		for attempt := 0; attempt < 50 && start < end; attempt++ {
-			cmd := exec.Command("timeout", "-s", "QUIT", "600", bin, "child", "hostile", fmt.Sprint(c.Seed), c.Tier, fmt.Sprint(start), fmt.Sprint(end), logPath)
+			cmd := exec.Command("timeout", "-s", "QUIT", "600", bin, "child", "hostile", fmt.Sprint(c.Seed), c.Tier, fmt.Sprint(start), fmt.Sprint(end), logPath, fmt.Sprint(nRandom))
 			cmd.Env = append(os.Environ(), "GORACE=halt_on_error=0 exitcode=0 log_path="+filepath.Join(scratch, fmt.Sprintf("c28race.%d", bi)))
 			var stderr bytes.Buffer
 			cmd.Stderr = &stderr
@@ -451,4 +516,5 @@ func checkC28(c *vk.Ctx) {
 	c.MinEvents["reference_rounds_ok"] = int64(total / 2)
 	c.MinEvents["hostile_closed"] = int64(total / 4)
 	c.MinEvents["oversize_probes"] = 32
+	c.MinEvents["systematic_streams"] = int64(nSys * 9 / 10)
 }
